@@ -4,6 +4,7 @@ import (
 	"bytes"
 	"fmt"
 	"math/rand"
+	"strings"
 	"time"
 
 	proto "github.com/kubewharf/kubebrain-client/api/v2rpc"
@@ -15,13 +16,13 @@ import (
 
 // C03 — a read at a revision returns exactly the MVCC snapshot at that revision.
 
-var c03Engines = []string{"memkv", "badger", "tikv", "memkv+m", "tikv", "badger+m"}
+var c03Engines = []string{"memkv", "badger", "tikv", "memkv+m", "tikv/split", "badger+m", "memkv/parts", "tikv/split"}
 
 func init() {
 	Registry["C03"] = &Prop{
 		Plan: func(tier string) Plan {
 			return Plan{Level: "exploration", NCases: pick(tier, 96, 1500), Batch: 6, CaseTimeout: 120,
-				Rule: "one case = one PRNG sequential history (30-300 create/update/delete incl. failing ones) over prefix-related key names and hostile values on one engine; " +
+				Rule: "one case = one PRNG sequential history (30-300 create/update/delete incl. failing ones) over prefix-related key names and hostile values on one engine (memkv, Badger, TiKV mock, metrics-wrapped, and engines reporting several partitions); " +
 					"every Get/List/limited List/Count at every checkpoint revision is compared with the reference MVCC snapshot, again after more writes and after a compaction below the checkpoint. " +
 					"non-trivial = history with >=1 deletion visible at some checkpoint, >=1 multi-version key and >=1 limited list cut short; distinct by (engine, outcome vector, key set)",
 				Assumptions: []string{"reads are issued only at revisions the node reported (response headers) and not below the compaction floor",
@@ -350,23 +351,37 @@ func newSeqNode(c *harness.Case, kind string, cfg backend.Config) (*harness.Node
 func runC03(c *harness.Case) {
 	r := c.Rng
 	kind := c03Engines[c.Index%len(c03Engines)]
-	n, eng, ok := newSeqNode(c, kind, backend.Config{EnableEtcdCompatibility: true})
-	if !ok {
-		return
-	}
-	defer eng.Close()
-	defer n.Retire()
-	s := &seqCtx{c: c, n: n, m: harness.NewModel()}
+	var keys []string
 	nk := 3 + r.Intn(8)
 	perm := r.Perm(len(c03Names))
 	for i := 0; i < nk; i++ {
-		s.keys = append(s.keys, harness.Prefix+"/"+c03Names[perm[i]])
+		keys = append(keys, harness.Prefix+"/"+c03Names[perm[i]])
 	}
 	allowMarker := c.Index%4 == 3
 	nOps := 30 + r.Intn(120)
 	if c.Tier == "thorough" && r.Intn(4) == 0 {
 		nOps = 150 + r.Intn(150)
 	}
+	var n *harness.Node
+	var eng *harness.Engine
+	if strings.Contains(kind, "/") {
+		// the same reads must hold when the engine reports several partitions (borders at stored or arbitrary internal keys)
+		kv, e, _, ok := partitionedStore(c, r, strings.Split(kind, "/")[0], keys, 1000, nOps)
+		if !ok {
+			return
+		}
+		eng = e
+		n = harness.NewNode(harness.NodeOpts{KV: kv, Config: backend.Config{EnableEtcdCompatibility: true}})
+	} else {
+		var ok bool
+		n, eng, ok = newSeqNode(c, kind, backend.Config{EnableEtcdCompatibility: true})
+		if !ok {
+			return
+		}
+	}
+	defer eng.Close()
+	defer n.Retire()
+	s := &seqCtx{c: c, n: n, m: harness.NewModel(), keys: keys}
 	for i := 0; i < nOps; i++ {
 		if !s.write(s.genOp(r, allowMarker), "C03") {
 			return
